@@ -103,7 +103,7 @@ _HINTS = ["padded", "zero", "max"]  # alloc_hint of the ept_map response: exact,
 _hint_i = [0]
 
 
-def through_stack(seed: int, api: str, stub: bytes, isd_port: t.Optional[int], step_limit: int):
+def through_stack(seed: int, api: str, stub: bytes, isd_port: t.Optional[int], step_limit: int, server: str = "dc"):
     """-> (status, value, attempts) with status ok|exc|net|budget|blocks"""
     import dpapi_ng
 
@@ -115,9 +115,9 @@ def through_stack(seed: int, api: str, stub: bytes, isd_port: t.Optional[int], s
     with transport.network(dc) as hub, secctx.scripted_client(lambda u, p, **kw: secctx.ScriptedContext([b"C1"], 16)):
         try:
             if api == "sync":
-                v = budget.run(step_limit, dpapi_ng.ncrypt_unprotect_secret, blob, server="dc", username="u", password="p", auth_protocol="ntlm")[0]
+                v = budget.run(step_limit, dpapi_ng.ncrypt_unprotect_secret, blob, server=server, username="u", password="p", auth_protocol="ntlm")[0]
             else:
-                v = budget.run(step_limit, vloop.run, dpapi_ng.async_ncrypt_unprotect_secret(blob, server="dc", username="u", password="p", auth_protocol="ntlm"))[0]
+                v = budget.run(step_limit, vloop.run, dpapi_ng.async_ncrypt_unprotect_secret(blob, server=server, username="u", password="p", auth_protocol="ntlm"))[0]
             st = "ok"
         except seams.NeedsNetwork as e:
             st, v = "net", repr(e)
@@ -166,6 +166,14 @@ def case_wellformed(seed: int, api: str, residues, tcp_towers, pos, status: int,
     if attempts != [("dc", 135), ("dc", port)]:
         return case, ("stack.wrong-port", {"connections": attempts, "expected_port": port})
     return case, None
+
+
+# spellings of the server argument: the second connection goes to exactly this host, on exactly the announced port
+SERVERS = [
+    "dc", "DC01.Verif.Test", "dc01.verif.test.", "10.0.0.5", "010.0.0.5", "::1", "fd00:db8::1:10", "2001:db8:0:1::53", "2001:db8::beef", "fe80::1%eth0",
+    "[::1]", "dc-135", "dc.135", "135", "49664", "xn--dc-1ia.test", "d\u00e7.test", "dc_01", "a" * 63 + ".test",
+]
+SERVER_PORTS = [1, 136, 1025, 5000, 49664, 65535]
 
 
 SUBV = lambda actual: [0, 1, 2, max(actual - 1, 0), actual + 1, 2**16, 2**32, 2**40, 2**63, 2**64 - 1]  # noqa: E731
@@ -260,6 +268,7 @@ def shards(tier: str, seed: int):
     out += [["pairs", i] for i in range(20)]
     out += [["stack-adv", api] for api in ("sync", "async")]
     out.append(["overlap", 2 if tier == "quick" else 3])
+    out += [["servers", api] for api in ("sync", "async")]
     return out
 
 
@@ -272,6 +281,29 @@ def run_shard(shard, tier, seed, acc) -> None:
         acc.states += n
         acc.transitions += n * 20
         acc.sample({"two async calls in flight": "replies in two segments (header | rest), interleaved segment by segment", "deviation_bound": shard[1], "interleavings": n})
+        return
+    if what == "servers":
+        api = shard[1]
+        n = 0
+        for server in SERVERS:
+            for port in SERVER_PORTS:
+                for tcp_at in ("3", "last"):
+                    case = ["servers", api, server, port, tcp_at]
+                    tw = [epm.tcp_floor(port) if f[0] == epm.P_TCP else f for f in tower(0, 0, tcp_at)]
+                    stub = epm.ept_map_response([tw], 0)
+                    st, v, attempts = through_stack(seed, api, stub, port, 400000, server=server)
+                    n += 1
+                    acc.nt(("servers", server, port, tcp_at))
+                    if st != "ok" or v != b"c18":
+                        acc.violate("servers.failed", case, {"status": st, "value": repr(v)[:200], "connections": attempts}, size=len(server))
+                    elif attempts != [(server, 135), (server, port)]:
+                        acc.violate("servers.wrong-endpoint", case, {"connections": attempts, "expected": [[server, 135], [server, port]]}, size=len(server))
+                    else:
+                        acc.outcome("servers-ok")
+        acc.ev(n)
+        acc.states += n
+        acc.transitions += n
+        acc.sample({"api": api, "server spellings": SERVERS, "announced ports": SERVER_PORTS})
         return
     if what == "wf":
         api, part = shard[1], shard[2]
@@ -383,6 +415,14 @@ def replay(case, seed, acc) -> None:
         run_overlap(seed, acc, 3)
         for kk in list(acc.violations):
             acc.violations[kk] = [e for e in acc.violations[kk] if e["case"][:3] == case[:3]]
+            if not acc.violations[kk]:
+                del acc.violations[kk]
+        acc.violation_count = sum(len(v) for v in acc.violations.values())
+        return
+    if what == "servers":
+        run_shard(["servers", case[1]], "quick", seed, acc)
+        for kk in list(acc.violations):
+            acc.violations[kk] = [e for e in acc.violations[kk] if e["case"] == case]
             if not acc.violations[kk]:
                 del acc.violations[kk]
         acc.violation_count = sum(len(v) for v in acc.violations.values())
